@@ -8,6 +8,11 @@
 #define RBHF(x) CSTL_CAT(RBH, x)
 #define RBL_pool CSTL_CAT(RBL, _pool)
 #define RBH_pool CSTL_CAT(RBH, _pool)
+#ifdef RB_FRAME_EXTRA
+#define RB_FRAME_EXTRA_ &&RB_FRAME_EXTRA(o, n)
+#else
+#define RB_FRAME_EXTRA_
+#endif
 
 /* ---- representation invariant ---------------------------------------------------------------- */
 static inline bool RBF(wf_base)(const RB_C *c)
@@ -104,13 +109,13 @@ static inline uint64_t RBF(entry_key)(const RB_C *c, cstl_iter kp) { return c->P
 static inline bool RBF(frame)(RB_C o, const RB_C *n)
 {
     return o.m_elements.size == n->m_elements.size && n->m_keyed_elements.reserved >= n->m_elements.size
-           && o.m_lock.m_lock.held == n->m_lock.m_lock.held && o.m_lock.m_lock.acq == n->m_lock.m_lock.acq;
+           && o.m_lock.m_lock.held == n->m_lock.m_lock.held && o.m_lock.m_lock.acq == n->m_lock.m_lock.acq RB_FRAME_EXTRA_;
 }
 /* a public method: one critical section, configuration unchanged */
 static inline bool RBF(frame_pub)(RB_C o, const RB_C *n)
 {
     return o.m_elements.size == n->m_elements.size && n->m_keyed_elements.reserved >= n->m_elements.size
-           && !n->m_lock.m_lock.held && n->m_lock.m_lock.acq - 1 == o.m_lock.m_lock.acq && n->m_lock.m_lock.acq != 0;
+           && !n->m_lock.m_lock.held && n->m_lock.m_lock.acq - 1 == o.m_lock.m_lock.acq && n->m_lock.m_lock.acq != 0 RB_FRAME_EXTRA_;
 }
 /* entry under key g untouched: presence and value */
 static inline bool RBF(kept)(RB_C o, const RB_C *n, uint64_t g)
@@ -171,13 +176,33 @@ static inline bool RBF(size_same)(RB_C o, const RB_C *n) { return RBF(size)(n) =
 static inline bool RBF(has_o)(RB_C o, uint64_t k) { return RBF(has)(&o, k); }
 static inline uint64_t RBF(val_o)(RB_C o, uint64_t k) { return RBF(val)(&o, k); }
 static inline uint64_t RBF(size_o)(RB_C o) { return RBF(size)(&o); }
+static inline uint64_t RBF(cap_o)(RB_C o) { return RBF(cap)(&o); }
 static inline uint64_t RBF(ord_o)(RB_C o, uint64_t k) { return RBF(ord)(&o, k); }
 static inline uint64_t RBF(key_of_slot_o)(RB_C o, uint64_t idx) { return RBF(key_of_slot)(&o, idx); }
 static inline uint64_t RBF(entry_key_o)(RB_C o, cstl_iter kp) { return RBF(entry_key)(&o, kp); }
 static inline uint64_t RBF(victim_o)(RB_C o) { return RBF(victim)(&o); }
+
+/* ---- symmetry reduction: canonical numbering of node ids (quick tier only) ------------------------
+ * list sentinel is node 0, the node at rank i is node i+1, the index entry of the entry at rank i is
+ * hash node i.  Every wf state is isomorphic to exactly such a state under a renaming of node ids. */
+static inline bool RBF(canon)(const RB_C *c)
+{
+    if (c->RB_LIST.head != 0) return false;
+    cstl_iter it = c->P_L0.next[0];
+    for (uint64_t i = 0; i < MAXCAP; i++)
+        if (i < c->m_elements.size)
+        {
+            if (it != i + 1) return false;
+            uint64_t s = c->P_L0.val[it];
+            if (i < c->m_used_size && c->m_elements.data[s < MAXCAP ? s : 0].m_keyed_position != i) return false;
+            it = c->P_L0.next[it];
+        }
+    return true;
+}
 
 #undef RBF
 #undef RBLF
 #undef RBHF
 #undef RBL_pool
 #undef RBH_pool
+#undef RB_FRAME_EXTRA_
